@@ -347,7 +347,8 @@ class SNAXGEMMXAccelerator(
 
                 shift_vals: Sequence[SSAValue] = []
                 for i in range(0, len(shifts), 4):  # 4 8-bit shift vals per 32-bit csr
-                    shift_bitlist = list(pack_bitlist(shifts[i : i + 4][::-1], (24, 16, 8, 0)))
+                    group = shifts[i : i + 4][::-1]  # the last csr holds fewer values if n is not a multiple of 4
+                    shift_bitlist = list(pack_bitlist(group, (24, 16, 8, 0)[4 - len(group) :]))
                     ops_to_add.extend(shift_bitlist)
                     shift_vals.append(shift_bitlist[-1].results[0])
 
